@@ -1,10 +1,7 @@
 #!/bin/sh
-# run every mutant of /verif/mutants and /verif/seeded through all quick checks (long)
+# run every hand-written mutant of /verif/mutants through all quick checks (long; sensitivity only)
 VERIF="$(cd "$(dirname "$0")/.." && pwd)"
+( cd "$VERIF/sim" && CARGO_NET_OFFLINE=true cargo build --release --offline -q )
 for p in "$VERIF"/mutants/*.patch; do
-    "$VERIF/tools/try_patch.sh" "$p" "$(basename "$p" .patch)"
+    ABYSIM_NO_DBG=1 "$VERIF/tools/try_patch.sh" "$p" "$(basename "$p" .patch)"
 done
-for d in "$VERIF"/seeded/*/; do
-    [ -f "$d/patch.diff" ] && "$VERIF/tools/try_patch.sh" "$d/patch.diff" "seed-$(basename "$d")"
-done
-rm -rf /tmp/mut/shared
